@@ -4,3 +4,7 @@ From GV Require Import Base.Str Model.Env Spec.Pipeline Gen.EnvGen.
 
 Lemma the_env_std : std_env the_env.
 Proof. constructor; reflexivity. Qed.
+
+(** decorator arguments are resolved by the same chain as service arguments (the model has one [w_arg_chain]) *)
+Lemma deco_chain_is_arg_chain : deco_arg_chain = w_arg_chain the_env.
+Proof. reflexivity. Qed.
